@@ -1499,7 +1499,15 @@ class Engine(object):
                 st.exc = e2
             elif ev.kind == 'call' and not ev.expanded:
                 # opaque call inside the callee: havoc as the callee did
-                if ev.callee is not None:
+                small_copy = False
+                if ev.callee is not None and (ev.callee.startswith('llvm.memcpy') or ev.callee.startswith('llvm.memmove')) \
+                        and e2.args and len(e2.args) > 2:
+                    nb = const_of(e2.args[2])
+                    small_copy = nb is not None and 0 < nb <= 64
+                # (a small aggregate copy was executed cell by cell when the summary was made: its
+                # stores are in the summary and have just been replayed - forgetting the destination
+                # again would lose the iterator/pointer values carried in such objects)
+                if ev.callee is not None and not small_copy:
                     self._havoc_call(f, st, ev.callee, e2.args or [], e2.site)
             self.emit(st, e2, rules, f)
         if rules == () or rules is None or len(rules) == 0:
@@ -1530,7 +1538,15 @@ class Engine(object):
                 for off in range(0, n, 8 if n % 8 == 0 else (4 if n % 4 == 0 else 1)):
                     vals.append((off, self.load(st, lin_add(src, L(off)))))
                 for off, v in vals:
-                    st.mem[lin_add(dst, L(off))] = v
+                    a = lin_add(dst, L(off))
+                    # a store like any other: it must be part of summaries (a constructor that returns its
+                    # object through a small memcpy into the caller's slot) and visible to rules
+                    sev = Ev('store', addr=a, val=v, ins=ins, fn=f, site=site, field=self.field_tag.get(a))
+                    if rules and sev.field is not None:
+                        sev.old = self.load(st, a)
+                    st.mem[a] = v
+                    st.stores = st.stores + ((a, v),)
+                    self.emit(st, sev, rules, f)
             else:
                 for addr in list(st.mem.keys()):
                     if addr[2] == dst[2]:
